@@ -174,6 +174,12 @@ func run(c *vh.Ctx) error {
 			la = 33 - p + c.R.Range(0, 2)
 			line = fmt.Sprintf("H seed=%d prefix=%d a=%d b=%d period=1", c.R.Intn(1000000), p, la, lb)
 		}
+		if i == 2 || (c.Thorough() && i%10 == 2) {
+			// long layout: withdrawals requested in block 2 are released at block 79 (WithdrawDelay 64 after the first period end);
+			// the fork starts before the release and covers the two following period ends (95, 111)
+			p = c.R.Range(60, 76)
+			line = fmt.Sprintf("H seed=%d prefix=%d a=%d b=%d long=1", c.R.Intn(1000000), p, 113-p+c.R.Range(0, 2), c.R.Range(1, 3))
+		}
 		f, what, info, err := runHistory(line)
 		if err != nil {
 			return fmt.Errorf("scenario %q: %v", line, err)
